@@ -21,7 +21,7 @@ var profiles = map[string][]weighted{
 	"durability": {{"apply", 30}, {"tick", 6}, {"restartall", 6}, {"crash", 8}, {"restart", 10}, {"crashop", 8}, {"isolate", 8}, {"partition", 8},
 		{"heal", 10}, {"reload", 4}, {"remove", 1}, {"addvoter", 1}, {"demote", 1}, {"stalesuffix", 4}, {"transfer", 2}, {"lossy", 2}, {"cfgrestart", 5}, {"flakyreads", 3}, {"snapcfg", 4}, {"snapfallback", 5}, {"figure8", 8}, {"latesnapshot", 5}},
 	"commit": {{"apply", 35}, {"tick", 6}, {"cutleader", 8}, {"partition", 8}, {"isolate", 4}, {"heal", 10}, {"addvoter", 2}, {"addnonvoter", 2},
-		{"demote", 2}, {"remove", 1}, {"crash", 4}, {"restart", 5}, {"barrier", 2}, {"lossy", 2}, {"join", 2}, {"flakyreads", 3}, {"figure8", 8}},
+		{"demote", 2}, {"remove", 1}, {"crash", 4}, {"restart", 5}, {"barrier", 2}, {"lossy", 4}, {"join", 2}, {"flakyreads", 7}, {"figure8", 5}, {"stalesuffix", 4}},
 	"membership": {{"apply", 20}, {"tick", 6}, {"addvoter", 9}, {"addnonvoter", 6}, {"demote", 7}, {"remove", 8}, {"transfer", 6}, {"isolate", 6},
 		{"heal", 8}, {"crash", 5}, {"restart", 6}, {"partition", 4}, {"crashop", 4}, {"reload", 2}, {"cutleader", 2}, {"cfgrestart", 3}, {"join", 10}, {"snapcfg", 4}, {"snapshot", 3}},
 	"clients": {{"apply", 45}, {"tick", 5}, {"barrier", 8}, {"transfer", 6}, {"isolate", 5}, {"heal", 6}, {"remove", 2}, {"demote", 1}, {"crash", 4},
